@@ -157,6 +157,8 @@ def gen_cases(rng: random.Random, n: int, tier: str):
         out.append({"kind": "orders", "what": ORDER_KINDS[j % len(ORDER_KINDS)], "seed": rng.randrange(1 << 30)})
     for j in range(max(len(COLL_OPS) * len(COLL_CLASSES) * 2, n // 10)):
         out.append({"kind": "coll", "cls": COLL_CLASSES[j % 3], "op": (j // 3) % len(COLL_OPS), "seed": rng.randrange(1 << 30)})
+    for j in range(max(10, n // 25)):
+        out.append({"kind": "cacheops", "seed": rng.randrange(1 << 30)})
     for j in range(n_com):
         f, g = rng.sample(range(len(COMMUTING)), 2)
         out.append({"kind": "commute", "f": f, "g": g, "recipe": rng.choice([0, 0, 0, 1, 2, 3, 9]), "seed": rng.randrange(1 << 30)})
@@ -181,6 +183,9 @@ def corpus_cases():
         {"kind": "call", "fn": fn, "recipe": rec, "seed": sd}
         for fn in ("add_population_parameter", "add_individual_parameter", "add_iiv", "add_iov", "rename_symbols", "create_symbol")
         for rec in (0, 5) for sd in (401, 402, 403)
+    ] + [{"kind": "cacheops", "seed": 500 + i} for i in range(4)] + [
+        {"kind": "call", "fn": fn, "recipe": 0, "seed": 510 + i}
+        for i, fn in enumerate(("set_direct_effect", "add_effect_compartment", "add_indirect_effect", "add_metabolite", "set_tmdd"))
     ] + [{"kind": "orders", "what": w, "seed": 100 + i} for i, w in enumerate(ORDER_KINDS)] + [
         {"kind": "commute", "f": 0, "g": 1, "recipe": 0, "seed": 200},
         {"kind": "commute", "f": 2, "g": 1, "recipe": 0, "seed": 201},
@@ -286,6 +291,9 @@ def _base_model(recipe_idx):
         m = M.load_example_model("pheno")
         for fn, kw in RECIPES[recipe_idx]:
             m = _data_variant(m, **kw) if fn == "@data" else getattr(M, fn)(m, **kw)
+        # every start model and all its components have been hashed before any case transforms it (as a search that
+        # keeps its candidates in a set does): a cached hash must never leak into a derived object
+        _prehash(m)
         _S["base"][recipe_idx] = m
     return _S["base"][recipe_idx]
 
@@ -849,6 +857,94 @@ def _clone_with(a, field, value):
     return x
 
 
+def _is_value_obj(x):
+    return hasattr(x, "__dict__") and type(x).__module__.startswith("pharmpy") and not isinstance(x, type)
+
+
+def _fresh(x, depth=0):
+    """A structurally identical rebuild of x in which no hash has ever been cached (all `_hash` caches cleared, at
+    every depth): what an equal object built from scratch looks like to `hash`."""
+    if depth > 14:
+        return x
+    if isinstance(x, tuple):
+        return tuple(_fresh(v, depth + 1) for v in x)
+    if isinstance(x, list):
+        return [_fresh(v, depth + 1) for v in x]
+    if _is_value_obj(x) and type(x).__name__ != "Output":
+        y = object.__new__(type(x))
+        for f, v in vars(x).items():
+            if f == "_hash":
+                if type(x).__name__ == "frozenmapping":
+                    y.__dict__[f] = None
+                continue
+            y.__dict__[f] = _fresh(v, depth + 1) if (isinstance(v, (tuple, list)) or _is_value_obj(v)) else v
+        return y
+    return x
+
+
+def _prehash(x, depth=0):
+    """Hash x and everything inside it (as a search that keeps visited candidates in a set would)."""
+    if depth > 14:
+        return
+    if isinstance(x, (tuple, list)):
+        for v in x:
+            _prehash(v, depth + 1)
+    elif _is_value_obj(x):
+        for f, v in vars(x).items():
+            if f != "_hash" and (isinstance(v, (tuple, list)) or _is_value_obj(v)):
+                _prehash(v, depth + 1)
+    _safe_hash(x)
+
+
+def _stale_cache(x, depth=0):
+    """The deepest object inside x whose cached hash is not the hash of its own content; None if there is none."""
+    if depth > 14:
+        return None
+    if isinstance(x, (tuple, list)):
+        for v in x:
+            r = _stale_cache(v, depth + 1)
+            if r is not None:
+                return r
+        return None
+    if not _is_value_obj(x):
+        return None
+    for f, v in vars(x).items():
+        if f != "_hash" and (isinstance(v, (tuple, list)) or _is_value_obj(v)):
+            r = _stale_cache(v, depth + 1)
+            if r is not None:
+                return r
+    cached = vars(x).get("_hash")
+    if cached is not None:
+        h = _safe_hash(_fresh(x))
+        if h is not None and h != cached:
+            return x
+    return None
+
+
+def check_cache(x, mon, tags, label):
+    """Mon: copying returns an equal object and hash caching does not leak: x equals its cache-free rebuild, and the
+    hash x reports (possibly from a cache) is the hash of that rebuild."""
+    hx = _safe_hash(x)
+    if hx is None:
+        return
+    y = _fresh(x)
+    try:
+        same = bool(x == y)
+    except Exception:
+        return
+    if not same:
+        mon.append({"cls": f"rebuild-not-equal:{_cls_of(x) or type(x).__name__}", "what": f"{label}: the object differs from a field-for-field rebuild of itself"})
+        return
+    hy = _safe_hash(y)
+    if hy is not None and hy != hx:
+        st = _stale_cache(x)
+        cname = type(st).__name__ if st is not None else (_cls_of(x) or type(x).__name__)
+        mon.append({"cls": f"hash-cache-stale:{cname}",
+                    "what": f"{label}: hash(x) != hash(equal rebuild of x without cached hashes): the {cname} inside reports a cached "
+                            f"hash that is not the hash of its content ({str(st)[:80]!r})"})
+    tags.append("cache-checked")
+
+
 def _root_cause(a, b, depth=0):
     """a == b but hash differs (or raises): the deepest Class.field responsible, found by a dynamic probe that
     needs no table: a field is responsible when giving `a` the value `b` has for it changes hash(a) (or when
@@ -906,6 +1002,9 @@ def compare_pair(a, b, drv, k, mon, tags, label):
     ha, hb = _safe_hash(a), _safe_hash(b)
     c = _cls_of(a) or type(a).__name__
     tags.append(f"pair:{c}:{'eq' if real_eq else 'ne'}")
+    check_cache(a, mon, tags, label + " [a]")
+    if b is not a:
+        check_cache(b, mon, tags, label + " [b]")
     try:
         if bool(b == a) != real_eq:
             mon.append({"cls": f"eq-asymmetric:{c}", "what": f"{label}: a == b is {real_eq} but b == a is {not real_eq}"})
@@ -1046,6 +1145,7 @@ def run_call(case, drv):
             models += [x for x in r if isinstance(x, Model)]
     for rm in models[:2]:
         tags.append("result:Model")
+        check_cache(rm, mon, tags, f"{fn} result")
         for cls, what in wellformed(rm, model, fn, kwargs):
             mon.append({"cls": cls, "what": f"{fn}(model, {json.dumps(_describe(kwargs), default=str)[:160]}) returned a model with: {what}"})
         # copying returns an equal object
@@ -1207,8 +1307,12 @@ def build_order_pairs(what, rng):
         rng.shuffle(ys)
         return ys
 
+    prehash = rng.random() < 0.5           # hash every intermediate object of a derivation chain before the next step
+
     def chain(obj, steps):
         for kw in steps:
+            if prehash:
+                _prehash(obj)
             obj = obj.replace(**kw)
         return obj
 
@@ -1329,6 +1433,8 @@ def build_order_pairs(what, rng):
         pairs.append(("insertion-order", a, frozenmapping(dict(shuffled(items)))))
         b = frozenmapping(dict(items[:1]))
         for kk, vv in shuffled(items[1:]):
+            if prehash:
+                _prehash(b)
             b = b.replace(kk, vv)
         pairs.append(("replace-order", a, b))
     elif what == "compartment":
@@ -1377,9 +1483,15 @@ def run_commute(case, drv):
         with warnings.catch_warnings(), contextlib.redirect_stdout(io.StringIO()):
             warnings.simplefilter("ignore")
             return getattr(M, name)(model, **copy.deepcopy(kw))
+    prehash = bool(case["seed"] & 1)      # also hash the intermediate models (and their parts) before the second step
     try:
-        a = app(app(m, fn, fkw), gn, gkw)
-        b = app(app(m, gn, gkw), fn, fkw)
+        ia, ib = app(m, fn, fkw), app(m, gn, gkw)
+        if prehash:
+            _prehash(ia)
+            _prehash(ib)
+            tags.append("commute:intermediates-prehashed")
+        a = app(ia, gn, gkw)
+        b = app(ib, fn, fkw)
     except Exception as e:
         return {"tags": [f"commute:raises:{type(e).__name__}"], "nontrivial": False}
     label = f"{gn}({fn}(m)) vs {fn}({gn}(m))"
@@ -1517,11 +1629,46 @@ def run_coll(case, drv):
     return {"k": k, "mon": mon, "tags": tags, "nontrivial": bool(other_names)}
 
 
+def run_cacheops(case, drv):
+    """K for the cache model: a seeded sequence of hash / replace / identical-content copy on a real frozenmapping
+    (starting empty) against `Cache.step` with the cache-free `replace`; after every step: is a hash cached, is the
+    reported hash the hash of the content, which keys are present (in order)."""
+    from pharmpy.internals.immutable import frozenmapping
+    rng = random.Random(case["seed"])
+    k, mon, tags = [], [], []
+    ops, real = [], []
+    x = frozenmapping({})
+    for _ in range(rng.randint(3, 12)):
+        r = rng.random()
+        if r < 0.35:
+            ops.append(["h"])
+            hash(x)
+        elif r < 0.85:
+            key, val = f"k{rng.randrange(4)}", str(rng.randrange(3))
+            ops.append(["r", key, val])
+            x = x.replace(key, val)
+        else:
+            ops.append(["c"])
+            x = frozenmapping(x)
+        cached = vars(x).get("_hash") is not None
+        ok = hash(_fresh(x)) == hash(x) if cached else True
+        real.append([cached, ok, list(x.keys())])
+        if not ok:
+            mon.append({"cls": "hash-cache-stale:frozenmapping", "what": f"after {ops}: the cached hash of {dict(x)} is not the hash of its content"})
+            break
+    if drv is not None and not mon:
+        ans = drv.ask(["cacheops", ops])
+        want = [[("true" if c else "false"), ("true" if o else "false"), ks] for c, o, ks in real]
+        if ans != want:
+            k.append(f"cache model and frozenmapping disagree on {ops}: model {ans}, code {want}")
+    return {"k": k, "mon": mon, "tags": tags + ["cacheops"], "nontrivial": True}
+
+
 def run_case(case, drv):
     import time
     t0 = time.time()
     kind = case["kind"]
-    res = {"call": run_call, "orders": run_orders, "commute": run_commute, "coll": run_coll}.get(kind, run_obj)(case, drv)
+    res = {"call": run_call, "orders": run_orders, "commute": run_commute, "coll": run_coll, "cacheops": run_cacheops}.get(kind, run_obj)(case, drv)
     dt = time.time() - t0
     if dt > 3 and os.environ.get("VERIF_DEBUG"):   # timing is not part of the (deterministic) evidence
         res.setdefault("tags", []).append(f"slow>3s:{case.get('fn', case.get('what'))}:recipe{case.get('recipe', '')}:{int(dt)}s")
